@@ -121,7 +121,7 @@ def op_tag(slrm, lines, cols, cur, op):
     return (k,)
 
 
-def gen(tier, seed, info):
+def _gen(tier, seed, info):
     rnd = random.Random(seed * 7919 + 9)
     quick = tier == "quick"
     counts = {"scroll_exhaustive": 0, "goto_move_sweep": 0, "erase_sweep": 0, "random_seq": 0, "malformed": 0}
@@ -306,3 +306,11 @@ def shrink(case):
                     if nv != v:
                         g = list(f); g[j] = str(nv)
                         yield " ".join(head + ops[:i] + [":".join(g)] + ops[i + 1:])
+
+
+def gen(tier, seed, info):
+    """cases outside the trigger class of the recorded finding first (stable), so that the first failing
+    input reported for a broken tree is one that has nothing to do with the finding whenever such a case exists"""
+    cases = list(_gen(tier, seed, info))
+    cases.sort(key=triggers_rv_edge)
+    return iter(cases)
